@@ -22,10 +22,12 @@
 //                                       -> "S FN IDX POS VALUE" for every NON-NEUTRAL result, "T FN calls nonneutral"
 //   write FILE IDENT LIB HASH MOD       InterrogateDatabase::write
 //   dump  FILE                          idbdump's JSON of the current database into FILE
-//   probe LABEL FILE IDENT HI PMAX      fork; the child loads FILE (module def with file_identifier IDENT; FILE "-"
-//                                       loads nothing), dumps + sweeps [-2,HI], and reports
-//                                       -> "P LABEL <error flag> <fnv64 of dump+sweep> <ntypes> <nfunctions>"
-//                                       or "P LABEL DIED <wait status>" / "P LABEL HANG"
+//   probe LABEL FILE IDENT HI PMAX      start from a FRESH database object, load FILE (module def with file_identifier
+//                                       IDENT; FILE "-" loads nothing), dump + sweep [-2,HI], and report
+//                                       -> "B LABEL" (flushed, before) then
+//                                          "P LABEL <error flag> <fnv64 of dump+sweep> <ntypes> <nfunctions>"
+//                                       or "P LABEL THREW <typeid>" when an exception escaped the C interface;
+//                                       a crash/20 s alarm ends the process after the B line
 //   prefixes FILE DIR HI PMAX L...      as probe, for the byte-prefixes of FILE with the given lengths
 //
 // VALUE: decimal int | "s:<hex>" string | "n" NULL | "p:<hex>" pointer | "v" void.
@@ -45,8 +47,7 @@
 #include <sstream>
 #include <string>
 #include <vector>
-#include <sys/types.h>
-#include <sys/wait.h>
+#include <typeinfo>
 #include <unistd.h>
 
 // reuse idbdump's dumper (its main() dumps the current database to std::cout)
@@ -201,13 +202,20 @@ static void sweep(std::ostream &o, int lo, int hi, int pmax, const std::string &
   }
 }
 
+struct CoutRedirect {
+  std::streambuf *old;
+  explicit CoutRedirect(std::streambuf *to) : old(std::cout.rdbuf(to)) {}
+  ~CoutRedirect() { std::cout.rdbuf(old); }
+};
+
 static std::string dump_string() {
   std::ostringstream ss;
-  std::streambuf *old = std::cout.rdbuf(ss.rdbuf());
-  char prog[] = "idbdump";
-  char *av[] = { prog, nullptr };
-  idbdump_main(1, av);
-  std::cout.rdbuf(old);
+  {
+    CoutRedirect guard(ss.rdbuf());
+    char prog[] = "idbdump";
+    char *av[] = { prog, nullptr };
+    idbdump_main(1, av);
+  }
   return ss.str();
 }
 
@@ -232,45 +240,46 @@ static InterrogateModuleDef *new_def() {
   return def;
 }
 
-// child side of probe: never returns
-static void probe_child(const std::string &label, const char *file, int ident, int hi, int pmax) {
-  if (file) {
-    InterrogateModuleDef *def = new_def();
-    def->file_identifier = ident;
-    def->database_filename = file;
-    interrogate_request_module(def);
-  }
-  std::string d = dump_string();
-  std::ostringstream sw;
-  sweep(sw, -2, hi, pmax, "", false, 0, false, 0);
-  // the T lines carry call counts only; keep the S lines
-  std::string sws = sw.str(), only_s;
-  std::istringstream ls(sws);
-  std::string line;
-  while (std::getline(ls, line)) if (!line.empty() && line[0] == 'S') { only_s += line; only_s += '\n'; }
-  bool flag = interrogate_error_flag();
-  std::ostringstream o;
-  char hb[32]; snprintf(hb, sizeof hb, "%016llx", fnv(d + "\n--\n" + only_s));
-  o << "P " << label << " " << (flag ? 1 : 0) << " " << hb << " " << interrogate_number_of_types() << " "
-    << interrogate_number_of_functions() << "\n";
-  std::string os = o.str();
-  ssize_t w = write(1, os.data(), os.size()); (void)w;
-  _exit(0);
-}
-
+// One probe = a fresh database object (the old one is leaked), one load, one digest.  Runs in-process so that
+// thousands of probes are cheap; a "B <label>" line is flushed first so that a hard crash is attributable, and
+// an exception escaping the C interface is caught and reported (for a C caller that is a crash).
 static void probe(const std::string &label, const char *file, int ident, int hi, int pmax) {
-  std::cout.flush(); std::cerr.flush(); fflush(nullptr);
-  pid_t pid = fork();
-  if (pid < 0) { std::cerr << "idbdrive: fork failed\n"; exit(3); }
-  if (pid == 0) {
-    alarm(20);
-    probe_child(label, file, ident, hi, pmax);
+  InterrogateDatabase::_global_ptr = nullptr;        // harness is compiled with -fno-access-control
+  std::cout << "B " << label << std::endl;
+  alarm(20);
+  try {
+    if (file) {
+      InterrogateModuleDef *def = new_def();
+      def->file_identifier = ident;
+      def->database_filename = file;
+      interrogate_request_module(def);
+    }
+    std::string d = dump_string();
+    // the error flag is reported separately; keep it out of the state digest
+    for (const char *k : { "\"error_flag\":true", "\"error_flag_after\":true" }) {
+      size_t p = d.find(k);
+      if (p != std::string::npos) d.replace(p + strlen(k) - 4, 4, "false");
+    }
+    std::ostringstream sw;
+    sweep(sw, -2, hi, pmax, "", false, 0, false, 0);
+    // the T lines carry call counts only; keep the S lines
+    std::string sws = sw.str(), only_s;
+    std::istringstream ls(sws);
+    std::string line;
+    while (std::getline(ls, line))
+      if (!line.empty() && line[0] == 'S' && line.compare(0, 25, "S interrogate_error_flag ") != 0) { only_s += line; only_s += '\n'; }
+    bool flag = interrogate_error_flag();
+    char hb[32]; snprintf(hb, sizeof hb, "%016llx", fnv(d + "\n--\n" + only_s));
+    std::cout << "P " << label << " " << (flag ? 1 : 0) << " " << hb << " " << interrogate_number_of_types() << " "
+              << interrogate_number_of_functions() << std::endl;
+  } catch (const std::exception &e) {
+    std::cout.clear();
+    std::cout << "P " << label << " THREW " << typeid(e).name() << std::endl;
+  } catch (...) {
+    std::cout.clear();
+    std::cout << "P " << label << " THREW unknown" << std::endl;
   }
-  int st = 0;
-  waitpid(pid, &st, 0);
-  if (WIFEXITED(st) && WEXITSTATUS(st) == 0) return;
-  if (WIFSIGNALED(st) && WTERMSIG(st) == SIGALRM) std::cout << "P " << label << " HANG" << std::endl;
-  else std::cout << "P " << label << " DIED " << st << std::endl;
+  alarm(0);
 }
 
 int main(int argc, char **argv) {
